@@ -5,7 +5,7 @@
 #ifdef __cplusplus
 #include <bits/stdc++.h>
 
-// kind: 0 load, 1 store, 2 read-modify-write. Defined by the scheduler (sched/vsched.c or the fiber scheduler); weak so that
+// kind: 0 load, 1 store, 2 read-modify-write; +16 when the access uses memory_order_relaxed. Defined by the scheduler (sched/vsched.c or the fiber scheduler); weak so that
 // programs without a scheduler still link.
 extern "C" void verif_atomic_point(int kind, const void* addr) __attribute__((weak));
 // value obtained by a load / RMW (lets a stateful explorer include thread-local knowledge in its state key)
@@ -18,18 +18,18 @@ template <class T> struct verif_atomic {
     constexpr verif_atomic(T x) noexcept : v(x) {}
     verif_atomic(const verif_atomic&) = delete;
     verif_atomic& operator=(const verif_atomic&) = delete;
-    static void pt(int k, const void* a) { if (verif_atomic_point) verif_atomic_point(k, a); }
-    T load(memory_order o = memory_order_seq_cst) const noexcept { pt(0, this); T r = v.load(o); if (verif_atomic_read) verif_atomic_read((unsigned long long)r); return r; }
-    void store(T x, memory_order o = memory_order_seq_cst) noexcept { pt(1, this); v.store(x, o); }
+    static void pt(int k, const void* a, memory_order o = memory_order_seq_cst) { if (verif_atomic_point) verif_atomic_point(k | (o == memory_order_relaxed ? 16 : 0), a); }
+    T load(memory_order o = memory_order_seq_cst) const noexcept { pt(0, this, o); T r = v.load(o); if (verif_atomic_read) verif_atomic_read((unsigned long long)r); return r; }
+    void store(T x, memory_order o = memory_order_seq_cst) noexcept { pt(1, this, o); v.store(x, o); }
     operator T() const noexcept { return load(); }
     T operator=(T x) noexcept { store(x); return x; }
-    T exchange(T x, memory_order o = memory_order_seq_cst) noexcept { pt(2, this); return v.exchange(x, o); }
-    bool compare_exchange_strong(T& e, T d, memory_order o = memory_order_seq_cst) noexcept { pt(2, this); return v.compare_exchange_strong(e, d, o); }
-    bool compare_exchange_weak(T& e, T d, memory_order o = memory_order_seq_cst) noexcept { pt(2, this); return v.compare_exchange_strong(e, d, o); }
-    T fetch_add(T x, memory_order o = memory_order_seq_cst) noexcept { pt(2, this); return v.fetch_add(x, o); }
-    T fetch_sub(T x, memory_order o = memory_order_seq_cst) noexcept { pt(2, this); return v.fetch_sub(x, o); }
-    T fetch_or(T x, memory_order o = memory_order_seq_cst) noexcept { pt(2, this); return v.fetch_or(x, o); }
-    T fetch_and(T x, memory_order o = memory_order_seq_cst) noexcept { pt(2, this); return v.fetch_and(x, o); }
+    T exchange(T x, memory_order o = memory_order_seq_cst) noexcept { pt(2, this, o); return v.exchange(x, o); }
+    bool compare_exchange_strong(T& e, T d, memory_order o = memory_order_seq_cst) noexcept { pt(2, this, o); return v.compare_exchange_strong(e, d, o); }
+    bool compare_exchange_weak(T& e, T d, memory_order o = memory_order_seq_cst) noexcept { pt(2, this, o); return v.compare_exchange_strong(e, d, o); }
+    T fetch_add(T x, memory_order o = memory_order_seq_cst) noexcept { pt(2, this, o); return v.fetch_add(x, o); }
+    T fetch_sub(T x, memory_order o = memory_order_seq_cst) noexcept { pt(2, this, o); return v.fetch_sub(x, o); }
+    T fetch_or(T x, memory_order o = memory_order_seq_cst) noexcept { pt(2, this, o); return v.fetch_or(x, o); }
+    T fetch_and(T x, memory_order o = memory_order_seq_cst) noexcept { pt(2, this, o); return v.fetch_and(x, o); }
     T operator+=(T x) noexcept { return fetch_add(x) + x; }
     T operator-=(T x) noexcept { return fetch_sub(x) - x; }
     T operator++() noexcept { return fetch_add(1) + 1; }
